@@ -74,8 +74,10 @@ func normalizedString(r RR) string {
 			if ttlEnd == 0 {
 				ttlEnd = i
 			}
-		case b[i] >= 'A' && b[i] <= 'Z' && !esc:
+		case b[i] >= 'A' && b[i] <= 'Z':
+			// A letter with a backslash in front (\A) is still that letter.
 			b[i] += 32
+			esc = false
 		default:
 			esc = false
 		}
